@@ -68,8 +68,9 @@ def per_shape(sh, out, rng, ty):
 def gen(seed, tier):
     rng = random.Random(seed)
     out = []
-    for sh in shapes(4, 3):
-        per_shape(sh, out, rng, "str" if len(sh) == 2 else "i32")
+    TYS = ["i32", "str", "list", "pair", "f64", "u8", "i64", "f32", "i16", "u16", "u64"]      # element types in rotation
+    for k, sh in enumerate(shapes(4, 3)):
+        per_shape(sh, out, rng, TYS[k % len(TYS)])
     for sh in ([1, 1], [1, 1, 1], [1, 5, 1], [4, 1, 1, 2], [1, 1, 1, 1], [6], [1], [2, 6]):
         per_shape(sh, out, rng, "i64")
     # larger element counts (blocked copies, doubling growth)
